@@ -21,18 +21,22 @@ InputOK(r) ==
     CASE r.op = "lists" -> NoDup(r.a) /\ NoDup(r.b) /\ (r.same => r.a = r.b)
       [] r.op = "jars" -> /\ WellFormedJar(r.client) /\ WellFormedJar(r.server)
                           /\ WellFormedClasses(r.client) /\ WellFormedClasses(r.server)
+      [] r.op = "premarked" -> r.side \in {"client", "server"} /\ r.pre \in {"client", "server"} /\ r.level \in {"fields", "methods"}
       [] OTHER -> FALSE
 
 Expected(r) ==
     IF ~InputOK(r) THEN [input |-> "outside the universe of the specification"]
     ELSE CASE r.op = "lists" -> ExpLists(r.a, r.b, r.same)
            [] r.op = "jars" -> ExpJars(r.client, r.server)
+           [] r.op = "premarked" -> (("ok" :> TRUE) @@ ("found" :> TRUE) @@ (("has_" \o r.side) :> TRUE) @@ (("has_" \o r.pre) :> TRUE))
 
 Accept(r) ==
     /\ InputOK(r)
     /\ HasResult(r)
     /\ CASE r.op = "lists" -> ListsLaw(r.got, r.a, r.b, r.same)
          [] r.op = "jars" -> JarLaw(r.got, r.client, r.server)
+         [] r.op = "premarked" -> /\ PreMarkedLaw(<<r.pre>>, r.side)
+                                  /\ r.got.ok /\ r.got.found /\ r.got["has_" \o r.side] /\ r.got["has_" \o r.pre]
 
 Init == l = 1 /\ rej = 0
 Next ==
